@@ -1425,7 +1425,8 @@ class QvmCpu:
             length = length.value
 
         if length is None:
-            length = len(string) - start + 1
+            # up to the end of the string; nothing if start is beyond it
+            length = max(0, len(string) - start + 1)
 
         if length < 0:
             self.trap(TrapCode.INVALID_OPERAND_VALUE,
@@ -1468,7 +1469,8 @@ class QvmCpu:
         s = self.pop(CellType.STRING)
         if n < 0:
             self.trap(TrapCode.INVALID_OPERAND_VALUE)
-        self.push(CellType.STRING, s[-n:])
+        # (s[-0:] would be the whole string)
+        self.push(CellType.STRING, s[-n:] if n > 0 else '')
 
     def _exec_sub(self):
         b = self.pop()
